@@ -26,6 +26,16 @@ CLAIMED = {
    note="Trusted: Coq kernel, extraction+OCaml driver (its rc/dump checks around the Coq monitor are unproved), inotify_drv.c, ASan/UBSan; watch set modelled as sorted association list (AVL tree justified by C16); reads return whole records, len multiple of 4 (kernel pads to 16); scripts do not unregister a watch the library already dropped (API contract)",
    technique="Coq proof (codec round-trip + dispatch-loop invariant) + extracted-model differential correspondence",
    ref="4 C20"),
+ "C08": dict(
+   text="Proof (Coq): iv_event.c + the epoll kick / raw-event kick are modelled as a labelled transition system over per-thread program counters (poster: lock, critical section, unlock, kick; owner: wake, lock, steal, pop, unlock, handler, relock, re-check; register/unregister) with any number of threads, events and loops; for EVERY label sequence accepted from the initial state (= every program, every interleaving at every synchronisation and wake-up point, both transports): the wake-up invariant, no lost post (whenever the owner is blocked and posters are between operations nothing is pending or owed), handler starts <= posts begun, handlers only in the owner thread and never under the list mutex, lock exclusivity; the log monitor accepts every accepted sequence. Tie: the real library runs with real threads under the deterministic baton scheduler (seeded schedules biased to the critical windows) on the virtual kernel; the totally ordered log of lock/unlock/kick/wait/handler/API events must be ACCEPTED by the extracted model and pass the extracted monitor.",
+   note="Trusted: Coq kernel, extraction, hand-written log->label parser (drops segments unrelated to the event protocol, listed in DESIGN), mt.c baton scheduler + vk.c (sequentially consistent interleavings switching only at interposed calls), ASan/UBSan; API misuse (post racing with unregistration of the SAME event) excluded by the model's step and by the generator",
+   technique="Coq proof (invariants over all accepted label sequences of an interleaving model) + trace acceptance of real multi-threaded runs under a baton scheduler",
+   ref="4 C08, 9.2"),
+ "C01": dict(
+   text="Proof (Coq): on the executable model of the whole sequential core (iv_main, iv_fd with the epoll/epoll-timerfd/ppoll/poll back ends, tasks, timers, iv_event owner paths, iv_event_raw) on the virtual kernel, for EVERY well-formed scenario (all handler scripts, all kernel behaviours, all four poll methods, all fault sets): every callback in the trace is for an object that is registered at that moment according to the log of API calls -- no descriptor/timer/task/event/raw-event handler runs after its unregister returned; timers and tasks are unregistered on entry (the tracker of Core/Monitors.v is proved to agree with the model's registration state: relation Rel). Tie: trace EQUALITY of the extracted model and the real library (ivsim on the virtual kernel) on generated scenarios x 4 poll methods x faults, every object individually allocated/poisoned/freed at the earliest allowed moment under ASan; Coq monitors (Monitors.v, GuardMon.v) run on the implementation traces, including the rule that no kernel interest entry survives an unregistration (1104) and that scripted re-registrations from one-shot handlers are executed (1101/1102). Partial: byte-level absence of stale accesses is observed (ASan), not proved; signal/wait/inotify objects are covered by C10/C11/C20.",
+   note="Trusted: Coq kernel, extraction + OCaml scenario parser/trace printer/trace parser, the hand transcription of the C text into Core/*.v (tied by trace equality on every run), vk.c/Kernel.v virtual kernel (probed against Linux by harness/vk_smoke.c), ivsim.c, ASan/UBSan",
+   technique="Coq proof (simulation between model state and trace tracker, invariants over the whole interpreter) + extracted-model trace-equality correspondence + extracted monitors on implementation traces",
+   ref="4 C01, 9.2"),
 }
 NA_REASON = "not claimed yet: the model/theorem/tie for this property is still being built (see DESIGN.md section 7 order of work)"
 
